@@ -237,7 +237,8 @@ public:
         }
         std::optional<T> get_value_lk(Handle h, subscribtion_type type) {
             subreg_t &l = _regs[h];
-            if (l._kicked || l._pos == _pos) return {};
+            //at or behind the end of the stream (the reader runs ahead after the end of stream)
+            if (l._kicked || l._pos >= _pos) return {};
             switch (type) {
                 default:
                 case subscribtion_type::all_values: {
@@ -247,10 +248,16 @@ public:
                 }
                 case subscribtion_type::skip_if_behind: {
                     std::size_t relpos = _pos - l._pos - 1;
-                    if (relpos >= _q.size()) relpos = _q.size()-1;
+                    if (relpos >= _q.size()) {
+                        relpos = _q.size()-1;
+                        //move the reader to the value it receives, otherwise the next step returns it again
+                        l._pos = _pos - relpos - 1;
+                    }
                     return _q[relpos];
                 }
                 case subscribtion_type::skip_to_recent: {
+                    //move the reader to the value it receives, otherwise the next step returns it again
+                    l._pos = _pos - 1;
                     return _q[0];
                 }
             }
